@@ -8,7 +8,7 @@ import numpy as np
 from .. import estim
 from ..core import MachineryFailure
 
-INVS = ("MeanUnbiased", "CrossUnbiased", "VarUnbiased", "PcInUnit")
+INVS = ("MeanUnbiased", "CrossUnbiased", "VarUnbiased", "PcInUnit", "BigAgrees")
 
 
 LABELS = ["CASS", "CASSL", "CASSLG", "CASSLGQ", "C", "CASSLGQAYEQYF", "CA"]      # nested prefixes, different lengths
@@ -79,6 +79,38 @@ def judge(ctx, kind, n, m, res, rp):
         check(ctx, f"pc(np.array sample {m}, np.array sample {n})", lambda: prs.pc(np.array(y), np.array(x)), res["pc"], "pc/two/ndarray", rp)
 
 
+def judge_big(ctx, s, res):
+    import pyrepseq as prs
+    n, m, kind = s["n"], s["m"], s["kind"]
+    rp = dict(kind="big", session=s)
+
+    def chk(desc, fn, want, key, sqrt=False):
+        try:
+            got = float(fn())
+        except Exception as e:      # noqa: BLE001
+            ctx.violation(f"{key}/large-sample/raised", f"{desc} raised {type(e).__name__}: {e}"[:300], rp)
+            return
+        if sqrt:
+            got = got * got
+        if not estim.close_big(got, want):
+            ctx.violation(f"{key}/large-sample/wrong_value", f"{desc} = {got!r} want {'(squared) ' if sqrt else ''}{float(estim.big_fraction(want))!r} (N = {sum(n)})"[:300], rp)
+    if kind in ("bigmean", "bigvar"):
+        chk(f"pc_n(np.array({n}))", lambda: prs.pc_n(np.array(n)), res["pc"], "pc_n")
+        chk(f"pc_n({n})", lambda: prs.pc_n(list(n)), res["pc"], "pc_n")
+        if sum(n) <= 300000:
+            x = np.repeat(np.arange(len(n)), n)
+            ctx.rng.shuffle(x)
+            chk(f"pc(sample with counts {n})", lambda: prs.pc(x), res["pc"], "pc")
+    if kind == "bigvar":
+        chk(f"varpc_n(np.array({n}))", lambda: prs.varpc_n(np.array(n)), res["var"], "varpc_n")
+        chk(f"varpc_n(float array {n})", lambda: prs.varpc_n(np.array(n, dtype=float)), res["var"], "varpc_n/float")
+        chk(f"stdpc_n(np.array({n}))", lambda: prs.stdpc_n(np.array(n)), res["var"], "stdpc_n", sqrt=True)
+    if kind == "bigcross" and sum(n) <= 300000 and sum(m) <= 400000:
+        x = np.repeat(np.arange(len(n)), n)
+        y = np.repeat(np.arange(len(m)), m)
+        chk(f"pc(sample {n}, sample {m})", lambda: prs.pc(x, y), res["pc"], "pc/two")
+
+
 def run(ctx):
     ctx.rule = ("Estimators.tla: for every count vector n with |n| = N <= bound, K <= bound the coefficient identities that are equivalent to "
                 "E[pc_n] = sum p^2, E[pc(a,b)] = sum p q and E[varpc_n] = Var(pc) are checked by TLC in exact rationals (the expectation "
@@ -121,6 +153,26 @@ def run(ctx):
         ctx.case(dict(kind="sampled:" + s["kind"], n=s["n"], m=s["m"], spec=out[s["sid"]]), nontrivial=True)
         judge(ctx, s["kind"], s["n"], s["m"], out[s["sid"]], dict(kind="sampled", session=s, spec=out[s["sid"]]))
         ctx.traces += 1
+    # realistic sample sizes (10^4 .. 10^7 sequences): products such as N(N-1)(N-2)(N-3) leave 32 and then 64 bits; the
+    # specification evaluates the same closed forms in arbitrary precision (BigInt.tla; BigAgrees ties them to the forms above)
+    big = []
+    for r in range(8 if q else 60):
+        k = ("bigvar", "bigvar", "bigmean", "bigcross", "bigvar")[r % 5]
+        N = [55111, 60000, 100003, 46342, 70000, 250000, 2200000, 9000000][r % 8] + ctx.rng.randint(0, 50)
+        K = ctx.rng.randint(2, 5)
+        w = [ctx.rng.random() ** 3 + 0.01 for _ in range(K)]
+        n = [max(1, int(N * x / sum(w))) for x in w]
+        n[0] += N - sum(n)
+        n += [1] * ctx.rng.randint(0, 3)
+        m = []
+        if k == "bigcross":
+            m = [ctx.rng.randint(1, 90000) for _ in n]
+        big.append(dict(sid=7000 + r, kind=k, n=n, m=m))
+    bout = estim.evaluate(ctx, big)
+    for s in big:
+        ctx.case(dict(kind="sampled:" + s["kind"], n=s["n"], m=s["m"]), nontrivial=True)
+        judge_big(ctx, s, bout[s["sid"]])
+        ctx.traces += 1
     # a changed coefficient in the variance formula must break the identity
     estim.run_cfg(ctx, "NEG_varcoeff", estim.cfg_text(["var"], maxn=6, maxk=2, mutations=["var_coeff"], invs=("VarUnbiased",), emit=False),
                   expect_violation=["VarUnbiased"], workers=4)
@@ -131,6 +183,10 @@ def replay(doc):
     ctx = Ctx("C06", "quick", 0)
     ctx._known = []
     r = doc["replay"]
+    if r.get("kind") == "big":
+        out = estim.evaluate(ctx, [r["session"]], count=False)
+        judge_big(ctx, r["session"], out[r["session"]["sid"]])
+        return 1 if ctx.violations else 0
     d = r.get("doc") or dict(kind=r["session"]["kind"], n=r["session"]["n"], m=r["session"]["m"], res=r["spec"])
     judge(ctx, d["kind"], d["n"], d["m"], d["res"], r)
     return 1 if ctx.violations else 0
